@@ -12,12 +12,12 @@ C17 — Copies and pickles are faithful and independent.
     afterwards to original and copy)
 
 Model: Store/Copy.lean.  `copyGraph pol w root` is the copy (deepcopy and every pickle protocol are the
-same graph copy in the model — the traversal is trusted CPython behaviour), `pol` is the shape of the
-method-caller line of `Parameterized.__setstate__` (`.always` = the pinned source).
+same graph copy in the model — the traversal is trusted CPython behaviour); `pol` is the shape of the
+method-caller line of `Parameterized.__setstate__`: `.unbound` is the CURRENT source (repair 04a1761:
+the copied caller is kept), `.always` the source before it (every caller re-created with
+`getattr(self, name)`).  The harness reads the shape off the source, so a tree with the old line is
+checked against `.always` — where `copy_succeeds` is false (`copy_fails_with_old_setstate`).
 
-The full statement is FALSE of the pinned source: `copy_succeeds` fails for an object whose
-`depends('a.x', watch=True)` method has installed a watcher on the attached sub-object
-(`C17_full_refuted`; the witness is replayed on the implementation by harness/props/c17.py `WITNESS_PRE`).
 Only property theorems and their non-vacuity examples live here; lemmas are in Store/CopyLemmas.lean.
 -/
 import ParamVerif.Store.CopyLemmas
@@ -31,25 +31,26 @@ def NoForeignCaller (w : World) (root : Nat) : Prop :=
   ∀ i ∈ reach w root, ∀ ob, w.objs[i]? = some ob → ∃ c, w.classes[ob.cls]? = some c ∧
     ∀ kv ∈ ob.watchers, ∀ wt ∈ kv.2, wt.fn.kind = .mcaller → c.hasAttr wt.fn.method = true
 
-/-- every reachable object has a class -/
-def ClassesValid (w : World) (root : Nat) : Prop :=
-  ∀ i ∈ reach w root, ∀ ob, w.objs[i]? = some ob → ∃ c, w.classes[ob.cls]? = some c
-
 /-- references stay inside the world: objects `< |objs|`, lists `< |cells|` -/
 def WF (w : World) : Prop := Closed w (fun o => o < w.objs.length) (fun c => c < w.cells.length)
 
 /-! ## copy_succeeds -/
 
-/-- the full statement for the pinned `__setstate__`: every object of every world reached by a history
-can be copied -/
+/-- the full statement: every object of every world reached by a history can be copied -/
 def C17_full : Prop :=
   ∀ (classes : List ClassDef) (ops : List Op) (w : World) (root : Nat),
     runOps { classes := classes, objs := [], cells := [], nextPid := 1, log := [] } ops = .ok w →
-    root < w.objs.length → ∃ r, copyGraph .always w root = .ok r
+    root < w.objs.length → ∃ r, copyGraph .unbound w root = .ok r
 
-/-- **C17 (copy_succeeds, partial).**  Whatever the shape of `__setstate__`, the copy of `root`
-succeeds PROVIDED no object reachable from it carries a method caller of another object's method
-(`NoForeignCaller`). -/
+/-- **C17 (copy_succeeds).**  With the current `__setstate__` every existing object of every world can be
+deep-copied / pickled — objects with live dependencies on attached sub-objects included. -/
+theorem copy_succeeds (w : World) (root : Nat) (hroot : root < w.objs.length) :
+    ∃ r, copyGraph .unbound w root = .ok r := copyGraph_unbound_ok w root hroot
+
+theorem C17_full_holds : C17_full := fun _ _ w root _ hroot => copy_succeeds w root hroot
+
+/-- **C17 (copy_succeeds, any shape of `__setstate__`).**  The copy of `root` succeeds whenever no object
+reachable from it carries a method caller of another object's method (`NoForeignCaller`). -/
 theorem copy_succeeds_partial (pol : Policy) (w : World) (root : Nat) (hroot : root < w.objs.length)
     (h : NoForeignCaller w root) : ∃ r, copyGraph pol w root = .ok r := by
   refine copyGraph_ok hroot ?_
@@ -57,21 +58,12 @@ theorem copy_succeeds_partial (pol : Policy) (w : World) (root : Nat) (hroot : r
   obtain ⟨c, hc, hm⟩ := h i hi ob hob
   exact ⟨c, hc, fun kv hkv wt hwt hk _ => hm kv hkv wt hwt hk⟩
 
-/-- **C17 (copy_succeeds, repaired `__setstate__`).**  When the method caller is re-created only if the
-copied caller carries no bound method (`.unbound`: the copied caller is kept), every object of a
-world whose reachable objects have classes can be copied — sub-object watchers included. -/
-theorem copy_succeeds_patched (w : World) (root : Nat) (hroot : root < w.objs.length)
-    (h : ClassesValid w root) : ∃ r, copyGraph .unbound w root = .ok r := by
-  refine copyGraph_ok hroot ?_
-  intro i hi ob hob
-  obtain ⟨c, hc⟩ := h i hi ob hob
-  exact ⟨c, hc, fun kv hkv wt hwt hk hr => by simp [Policy.redo] at hr⟩
-
 def c17Sub : ClassDef :=
-  { name := "Sub", params := [⟨"x", .int 0, false, none⟩], methods := [⟨"s", .own "x"⟩], plain := ["cb"] }
+  { name := "Sub", params := [⟨"x", .int 0, false, none⟩, ⟨"y", .int 0, false, none⟩],
+    methods := [⟨"s", [.own "x"]⟩], plain := ["cb"] }
 def c17Top : ClassDef :=
-  { name := "Top", params := [⟨"a", .none, true, none⟩, ⟨"n", .int 1, false, some (0, 100)⟩],
-    methods := [⟨"m", .sub "a" "x"⟩, ⟨"k", .own "n"⟩], plain := ["cb"] }
+  { name := "Top", params := [⟨"a", .none, true, none⟩, ⟨"b", .none, true, none⟩, ⟨"n", .int 1, false, some (0, 100)⟩],
+    methods := [⟨"m", [.sub "a" "x"]⟩, ⟨"k", [.own "n"]⟩, ⟨"mb", [.sub "a" "y", .sub "b" "y"]⟩], plain := ["cb"] }
 def c17Empty : World := { classes := [c17Sub, c17Top], objs := [], cells := [], nextPid := 1, log := [] }
 /-- the witness: `s = Sub(x=1); t = Top(a=s)` -/
 def c17Ops : List Op := [.new 0 [("x", .int 1)], .new 1 [("a", .obj 0)]]
@@ -79,17 +71,11 @@ def c17Ops : List Op := [.new 0 [("x", .int 1)], .new 1 [("a", .obj 0)]]
 /-- the world of the witness -/
 def c17W : World := match runOps c17Empty c17Ops with | .ok w => w | .error _ => c17Empty
 
-/-- **C17 is false as stated**: `copy.deepcopy(t)` / `pickle.loads(pickle.dumps(t))` raise
-`AttributeError` — `Sub.__setstate__` calls `_m_caller(sub, 'm')` for the watcher that `t.m` installed
-on the sub-object. -/
-theorem C17_full_refuted : ¬ C17_full := by
-  intro h
-  have h1 : runOps c17Empty c17Ops = .ok c17W := by rfl
-  have h2 : copyGraph .always c17W 1 = .error .attributeError := by rfl
-  have h3 : 1 < c17W.objs.length := by decide
-  obtain ⟨r, hr⟩ := h [c17Sub, c17Top] c17Ops c17W 1 h1 h3
-  rw [h2] at hr
-  cases hr
+/-- the defect repaired by 04a1761, kept as a regression statement: with the OLD `__setstate__`
+(`.always`) `copy.deepcopy(t)` / `pickle.loads(pickle.dumps(t))` raise `AttributeError` —
+`Sub.__setstate__` calls `_m_caller(sub, 'm')` for the watcher that `t.m` installed on the sub-object. -/
+theorem copy_fails_with_old_setstate :
+    runOps c17Empty c17Ops = .ok c17W ∧ copyGraph .always c17W 1 = .error .attributeError := ⟨by rfl, by rfl⟩
 
 /-! ## copy_isomorphic, copy_disjoint -/
 
@@ -123,6 +109,16 @@ theorem copy_isomorphic (pol : Policy) (w w' : World) (root r' : Nat)
     rcases hreb with e | ⟨t, e, _⟩ <;> rw [e] <;> simp [renObj]
   · intro c hc
     rw [hcells, List.getElem?_append_right (by omega)]; simp
+
+/-- **C17 (copy_isomorphic, exact).**  With the current `__setstate__`, in a world where every watcher is
+registered on its own instance, the copy is *exactly* the image of the old world under the renaming:
+watcher tables, `changed=` filters and the identity of the callers recorded in `dynamic_watchers`
+included — so the copy's dependencies are wired exactly like the original's. -/
+theorem copy_isomorphic_exact (w : World) (root : Nat) (hroot : root < w.objs.length) (hown : OwnWatchers w) :
+    copyGraph .unbound w root =
+      .ok ({ w with objs := w.objs ++ w.objs.map (renObj w.objs.length w.cells.length w.nextPid),
+                    cells := w.cells ++ w.cells, nextPid := w.nextPid + w.nextPid }, w.objs.length + root) :=
+  copyGraph_unbound_eq hroot hown
 
 /-- **C17 (copy_disjoint).**  After a successful copy in a well-formed world: the original objects and
 lists are exactly as before; every original object refers only to original objects and lists; every
@@ -196,15 +192,17 @@ theorem dependencies_act_on_original_only (pol : Policy) (w w' w'' : World) (roo
 
 /-! ## Non-vacuity -/
 
-/-- the witness world without the sub-object dependency problem: `Top(a=None)`, later attached on the copy -/
 def c17Ops2 : List Op := [.new 0 [("x", .int 1)], .new 1 [], .set 1 "n" (.int 5), .pedit 1 "n" (.bounds (some (0, 60)))]
-
 def c17W2 : World := match runOps c17Empty c17Ops2 with | .ok w => w | .error _ => c17Empty
 def getW (r : Except Err (World × Nat)) : World := match r with | .ok (w, _) => w | .error _ => c17Empty
 
 example : runOps c17Empty c17Ops2 = .ok c17W2 := by rfl
 example : reach c17W2 1 = [1] ∧ 1 < c17W2.objs.length := by decide
--- NoForeignCaller holds there, and the as-written copy succeeds (new root = 2 + 1)
+-- the worlds are well-formed (the driver evaluates `wfB` and `ownWatchersB` on every world it copies)
+example : WF c17W2 := wfB_sound (by decide)
+example : WF c17W := wfB_sound (by decide)
+example : OwnWatchers c17W := ownWatchersB_sound (by decide)
+-- NoForeignCaller holds in c17W2, and the old `__setstate__` copies it too (new root = 2 + 1)
 example : NoForeignCaller c17W2 1 := by
   intro i hi ob hob
   have : reach c17W2 1 = [1] := by decide
@@ -213,24 +211,23 @@ example : NoForeignCaller c17W2 1 := by
   rw [this] at hob; cases hob
   exact ⟨c17Top, by rfl, by decide⟩
 example : copyGraph .always c17W2 1 = .ok (getW (copyGraph .always c17W2 1), 3) := by rfl
--- the repaired __setstate__ copies the witness of the refutation (new root 3, its sub-object 2), and the copy's
--- sub-object watcher calls the copy's method
+-- the witness of the old defect is copied (new root 3, its sub-object 2); the copy's sub-object watcher calls the
+-- copy's method, the original's the original's
 example : copyGraph .unbound c17W 1 = .ok (getW (copyGraph .unbound c17W 1), 3) := by rfl
 example : (match runOps (getW (copyGraph .unbound c17W 1)) [.set 2 "x" (.int 7)] with
     | .ok w => w.log | .error _ => []) = [(2, "s"), (3, "m")] := by rfl
--- the world is well-formed (the driver evaluates `wfB` on every world it copies)
-example : WF c17W2 := wfB_sound (by decide)
-example : WF c17W := wfB_sound (by decide)
+example : (match runOps (getW (copyGraph .unbound c17W 1)) [.set 0 "x" (.int 7)] with
+    | .ok w => w.log | .error _ => []) = [(0, "s"), (1, "m")] := by rfl
 -- a copy-side history satisfying `opsIn`
-example : opsIn (fun o => c17W2.objs.length ≤ o) (fun c => c17W2.cells.length ≤ c)
-    (getW (copyGraph .always c17W2 1)) [.set 3 "n" (.int 9), .mutate 3 "l" 1] := by
+example : opsIn (fun o => c17W.objs.length ≤ o) (fun c => c17W.cells.length ≤ c)
+    (getW (copyGraph .unbound c17W 1)) [.set 2 "x" (.int 9), .set 3 "a" .none] := by
   simp only [opsIn, Op.inSets, Arg.inSets]
   refine ⟨⟨by decide, trivial⟩, ?_⟩
-  have : ∃ w1, step (getW (copyGraph .always c17W2 1)) (.set 3 "n" (.int 9)) = .ok w1 :=
-    ⟨match step (getW (copyGraph .always c17W2 1)) (.set 3 "n" (.int 9)) with | .ok w => w | .error _ => c17Empty, by rfl⟩
+  have : ∃ w1, step (getW (copyGraph .unbound c17W 1)) (.set 2 "x" (.int 9)) = .ok w1 :=
+    ⟨match step (getW (copyGraph .unbound c17W 1)) (.set 2 "x" (.int 9)) with | .ok w => w | .error _ => c17Empty, by rfl⟩
   obtain ⟨w1, h1⟩ := this
   rw [h1]
-  refine ⟨by decide, ?_⟩
+  refine ⟨⟨by decide, trivial⟩, ?_⟩
   split <;> trivial
 
 end ParamVerif.Copy
